@@ -24,6 +24,7 @@ theorem height_mono (s : State) (a : Act) : s.height ≤ (apply s a).height := b
   | put e hr => rw [apply, (put_frame s e _).2.1]; exact Nat.le_refl _
   | adv => simp only [apply, chainAdvance]; omega
   | disc => simp only [apply, discard]; split <;> exact Nat.le_refl _
+  | notify => simp only [apply, notify]; split <;> exact Nat.le_refl _
   | run =>
     simp only [apply, runStep]
     split
@@ -43,6 +44,7 @@ theorem nd_apply (s : State) (a : Act) (hd : a ≠ .disc) (h : s.discarded = fal
   | put e hr => rw [apply, (put_frame s e _).2.2.2]; exact h
   | adv => exact h
   | disc => exact absurd rfl hd
+  | notify => simp only [apply, notify]; split <;> exact h
   | run =>
     simp only [apply, runStep]
     split
@@ -65,6 +67,16 @@ theorem good_apply (s : State) (m : Nat) (a : Act) (hr : racy s a = false) (hd :
   obtain ⟨hfill, hact⟩ := g.go (by omega)
   cases a with
   | disc => exact absurd rfl hd
+  | notify =>
+    have hnd := g.nd
+    simp only [apply, notify, hnd, Bool.false_eq_true, if_false]
+    refine ⟨hfill, ?_⟩
+    rcases hact with h | h | h | h | h
+    · exact .inl ⟨rfl, h.2⟩
+    · exact .inr (.inl h)
+    · exact .inr (.inr (.inl h))
+    · exact .inr (.inr (.inr (.inl h)))
+    · exact .inr (.inr (.inr (.inr h)))
   | put e hr' =>
     obtain ⟨h1, h2, h3, _⟩ := put_frame s e (min hr' s.height)
     constructor
